@@ -31,6 +31,7 @@ def run(repo, run, tier):
     from ..imodel import DS
     settings_reach_integrator(repo, run, ClassModel(repo, DS, "OdeSystem"), rule_id="C05.8")
     error_measure(repo, run)
+    tolerance_scale_is_current(repo, run)
 
 
 
@@ -612,3 +613,42 @@ def error_measure(repo, run, rule_id="C05.9"):
                 "one sized by the easiest component, the harder components are recorded with errors orders of magnitude above the tolerances, and no step is rejected"
                 if v[1] == "best" else "is not reduced to one number over the whole state (coverage: %s)" % v[1])
             run.report(rule_id, TPL, st, "the error measure of the step controller %s" % why)
+
+
+# ------------------------------------------------------------------------------------------------
+def tolerance_scale_is_current(repo, run, rule_id="C05.10"):
+    """'error bounded by a modest constant times (atol + rtol*|y|)': the quantity that multiplies rtol in the controller has to follow the CURRENT state.  A scale
+    that carries a memory of earlier steps (a running average stored in solver_dict and read back) lags behind a decaying solution by a factor 0.8^-n: with
+    atol << rtol*|y| the accepted error exceeds the tolerance by orders of magnitude, for every integrator whose solver_dict survives from step to step."""
+    rid = run.rule(rule_id, "update_timestep: the scale multiplying rtol (`atol + rtol * scale`) is computed from the current step's data only -- no store of it reads its own "
+                            "previous value (or any other entry of solver_dict written by an earlier call of update_timestep)", floor=1)
+    TPL_ = "desolver/integrators/integrator_template.py"
+    fn = repo.get(TPL_, "IntegratorTemplate.update_timestep")
+    env = inline_locals(fn)
+    tol = env.get("total_error_tolerance")
+    keys = set()
+    if tol is not None:
+        for x in ast.walk(tol):
+            if isinstance(x, ast.Subscript) and is_self_attr(x.value, "solver_dict") and isinstance(x.slice, ast.Constant):
+                keys.add(x.slice.value)
+    if not keys:
+        raise AnalysisError("update_timestep: the scale entering the error tolerance (atol + rtol * solver_dict[...]) was not found")
+    # entries written by update_timestep itself: reading one of them back is reading a value of an EARLIER call
+    written = {t.slice.value for st in walk_no_nested(fn) if isinstance(st, ast.Assign) for t in ast.walk(st.targets[0])
+               if isinstance(t, ast.Subscript) and is_self_attr(t.value, "solver_dict") and isinstance(t.slice, ast.Constant)}
+    n = 0
+    for st in walk_no_nested(fn):
+        if not isinstance(st, ast.Assign):
+            continue
+        for t in st.targets:
+            if isinstance(t, ast.Subscript) and is_self_attr(t.value, "solver_dict") and isinstance(t.slice, ast.Constant) and t.slice.value in keys:
+                n += 1
+                back = sorted({x.slice.value for x in ast.walk(st.value) if isinstance(x, ast.Subscript) and is_self_attr(x.value, "solver_dict") and
+                               isinstance(x.slice, ast.Constant) and x.slice.value in written})
+                run.judged(rid, "`%s`%s" % (src(st)[:100], " reads back %s" % back if back else ""), ok=not back)
+                if back:
+                    run.report(rule_id, TPL_, st, "the scale of the relative tolerance is stored as a function of its own earlier value (%s): it is a running average over past steps, "
+                               "which lags behind a solution that shrinks along the run; for every integrator whose solver_dict persists between steps the controller then works "
+                               "with atol + rtol*(stale, too large scale) and accepts errors far above atol + rtol*|y|" % ", ".join("solver_dict[%r]" % b for b in back))
+    if n == 0:
+        raise AnalysisError("update_timestep: no store of the tolerance scale found")
